@@ -202,6 +202,7 @@ func (as *adminScen) doOp(admin sarama.ClusterAdmin, op *cf.Op) {
 		err = admin.DeleteConsumerGroup(op.Args[0])
 	}
 	k.logf("admin %s %s -> %v", op.Arg, op.Topic, err)
+	retUs := k.nowUs()
 	reqs := as.reqs[start:]
 	transport := as.cl.lastFaultUs != startFaults || lastTransportErrUs >= invokeUs
 	_ = transport
@@ -242,6 +243,11 @@ func (as *adminScen) doOp(admin sarama.ClusterAdmin, op *cf.Op) {
 		if len(attempts) > 0 {
 			last := attempts[len(attempts)-1]
 			if as.delivered(last) && last.fault != "drop-after" && last.fault != "silence" {
+				backoffUs := int64(as.c.Config.AdminBackoffMs) * 1000
+				gaveUpEarly := err != nil && backoffUs > 0 && retUs-last.us < backoffUs
+				if last.code == int16(sarama.ErrNotController) && !last.missing && len(attempts) < as.retryMax+1 && !isNotController(err) && gaveUpEarly {
+					r.violate("C19.not-retried", "%s(%s): b%d answered NOT_CONTROLLER on attempt %d of %d allowed (Admin.Retry.Max=%d), but the operation gave up with %v only %d us later, without waiting the retry back-off of %d us for another attempt", op.Arg, op.Topic, last.broker, len(attempts), as.retryMax+1, as.retryMax, err, retUs-last.us, backoffUs)
+				}
 				if last.code == int16(sarama.ErrNotController) && !last.missing && len(attempts) < as.retryMax+1 && isNotController(err) {
 					r.violate("C19.not-retried", "%s(%s): b%d answered NOT_CONTROLLER on attempt %d of %d allowed (Admin.Retry.Max=%d), but the operation gave up with %v", op.Arg, op.Topic, last.broker, len(attempts), as.retryMax+1, as.retryMax, err)
 				}
